@@ -76,7 +76,7 @@ pub fn check(c: &Phys, ctx: &mut Ctx) -> Result<(), Failure> {
 }
 pub fn run(tier: Tier, seed: u64) -> i32 {
     let t0 = Instant::now();
-    let sp = Spec { id: "C08", rule: RULE, tape_len: 280, cases: tier.pick(20_000, 300_000), gen: gen_case, check, max_shrink_iters: 3000, shards: 16 };
+    let sp = Spec { id: "C08", rule: RULE, tape_len: 280, cases: tier.pick(100_000, 1_000_000), gen: gen_case, check, max_shrink_iters: 3000, shards: 16 };
     let mut stats = engine::run_spec(&sp, tier, seed);
     engine::run_regressions::<Phys>("C08", check, &mut stats);
     engine::finish("C08", tier, seed, RULE, stats, t0, serde_json::json!({}), &["Feynman parameters are read from the crate's debug log (checked against the sector formula by C07)", "exact rational determinant / brute-force spanning trees as oracle", "tolerance 1000*eps*kappa(L), kappa computed exactly"])
